@@ -295,9 +295,11 @@ def converged (cache1 : List (Nat × Entry)) (prov : List (Nat × Nat)) : Bool :
     complete_cycle_participant, try_complete_cycle_head).
     `s` has `j` on top of the stack.  A query that completes while a cycle head is active below
     it is provisional (`cache`); a head with no head below it is the outermost head and drives
-    the iteration.  Structural recursion on `fuel` = `MAX_ITERATIONS + 1 − iteration`. -/
-def executeMaybeIterate (P : Prog) (env : Nat → Nat) (read : Nat → St → Res Fetched) (j : Nat) :
-    Nat → Nat → St → Res Fetched
+    the iteration; `outer` records that `j` already iterated as the outermost head (it then stays
+    the outermost head of its cycle).  Structural recursion on `fuel` =
+    `MAX_ITERATIONS + 1 − iteration`. -/
+def executeMaybeIterate (P : Prog) (env : Nat → Nat) (read : Nat → St → Res Fetched) (j : Nat)
+    (outer : Bool) : Nat → Nat → St → Res Fetched
   | 0, _, s => .error ⟨.outOfFuel, s.stack⟩
   | fuel + 1, stamp, s =>
     match evalM env read (P.node j).body s with
@@ -305,7 +307,7 @@ def executeMaybeIterate (P : Prog) (env : Nat → Nat) (read : Nat → St → Re
     | .ok (v, hs, s1) =>
       -- the heads that are still active once `j` is popped
       let hs' := hs.filter (fun k => k != j)
-      let below := s1.stack.tail.any (isHead s1.prov)
+      let below := !outer && s1.stack.tail.any (isHead s1.prov)
       match s1.prov.lookup j with
       | none =>
         if below then
@@ -334,7 +336,7 @@ def executeMaybeIterate (P : Prog) (env : Nat → Nat) (read : Nat → St → Re
             match IterationStamp.increment_iteration stamp with
             | none => .error ⟨.tooManyIterations, s1.stack⟩
             | some stamp' =>
-              executeMaybeIterate P env read j fuel stamp'
+              executeMaybeIterate P env read j true fuel stamp'
                 { s1 with prov := updateProv cache1 s1.prov, cache := [], iters := s1.iters + 1 }
 
 /-- fuel of the head loop. -/
@@ -344,7 +346,7 @@ def loopFuel : Nat := MAX_ITERATIONS + 1
 def execute (P : Prog) (env : Nat → Nat) : Nat → Nat → St → Res Fetched
   | 0, _, s => .error ⟨.outOfFuel, s.stack⟩
   | d + 1, j, s =>
-    executeMaybeIterate P env (fetch P (execute P env d)) j loopFuel
+    executeMaybeIterate P env (fetch P (execute P env d)) j false loopFuel
       (IterationStamp.initial 0) { s with stack := j :: s.stack }
 
 def St.init (final : List (Nat × Nat)) (poisoned : List Nat) : St :=
